@@ -10,6 +10,9 @@ require (
 	pgregory.net/rapid v1.3.0
 )
 
-require go.uber.org/atomic v1.11.0 // indirect
+require (
+	github.com/cespare/xxhash/v2 v2.2.0 // indirect
+	go.uber.org/atomic v1.11.0 // indirect
+)
 
 replace github.com/pinealctx/neptune => /repo
